@@ -315,7 +315,23 @@ __attribute__((destructor(101))) static void verif_fini(void)
 /* ------------------------------------------------------------- faults */
 
 /* returns 1 if the call must fail (errno set) */
-static int check_fault(int cls)
+static void note_caller(void *caller)
+{
+	const char *p = getenv("VERIF_FAULT_CALLER");
+	if (p) {
+		char line[64];
+		int fd = __real_open(p, O_WRONLY | O_CREAT | O_TRUNC, 0644);
+		if (fd >= 0) {
+			int l = snprintf(line, sizeof(line), "%p\n", caller);
+			wr_all(fd, line, l);
+			close(fd);
+		}
+	}
+}
+
+#define check_fault(cls) check_fault_at((cls), __builtin_return_address(0))
+
+static int check_fault_at(int cls, void *caller)
 {
 	unsigned long n = atomic_fetch_add(&counters[cls], 1) + 1;
 
@@ -332,6 +348,7 @@ static int check_fault(int cls)
 		}
 		atomic_store(&fault_fired, 1);
 		verif_event_raw(VEV_IO_FAULT, cls, n, fault_errno);
+		note_caller(caller);
 		errno = fault_errno;
 		return 1;
 	}
@@ -463,18 +480,8 @@ static int alloc_fault(void *caller)
 	if (fault_on && fault_class == C_ALLOC && (n == fault_k || (fault_sticky && n > fault_k))) {
 		atomic_store(&fault_fired, 1);
 		verif_event_raw(VEV_ALLOC_FAULT, n, (uint64_t)(uintptr_t)caller, 0);
-		if (n == fault_k) {
-			const char *p = getenv("VERIF_FAULT_CALLER");
-			if (p) {
-				char line[64];
-				int fd = __real_open(p, O_WRONLY | O_CREAT | O_TRUNC, 0644);
-				if (fd >= 0) {
-					int l = snprintf(line, sizeof(line), "%p\n", caller);
-					wr_all(fd, line, l);
-					close(fd);
-				}
-			}
-		}
+		if (n == fault_k)
+			note_caller(caller);
 		errno = ENOMEM;
 		return 1;
 	}
